@@ -121,7 +121,16 @@ func C10_request_wellformed() {
 	var d Dialer
 	u := &url.URL{Scheme: "ws", Host: "example.com:8080", Path: "/chat", RawQuery: "x=1"}
 	wantURI := "/chat?x=1"
-	switch vChoose("url", 3) {
+	switch vChoose("url", 6) {
+	case 3: // a path that needs escaping: the request-URI carries the escaped form
+		u = &url.URL{Scheme: "ws", Host: "h", Path: "/chat room/x", RawQuery: "q=a%20b"}
+		wantURI = "/chat%20room/x?q=a%20b"
+	case 4: // an explicit raw path whose escaping differs from the default one
+		u = &url.URL{Scheme: "ws", Host: "h", Path: "/a/b/c?d", RawPath: "/a%2Fb/c%3Fd"}
+		wantURI = "/a%2Fb/c%3Fd"
+	case 5: // opaque form and a bare '?'
+		u = &url.URL{Scheme: "ws", Host: "h", Path: "/p", ForceQuery: true}
+		wantURI = "/p?"
 	case 1:
 		u = &url.URL{Scheme: "wss", Host: "[::1]", Path: "/"}
 		wantURI = "/"
